@@ -3366,7 +3366,7 @@ class Viewbox:
         ):
             return ""
         if aspect is not None:
-            aspect_slice = aspect.split(" ")
+            aspect_slice = aspect.split()  # any white space, also leading, trailing or repeated
             try:
                 align = aspect_slice[0]
             except IndexError:
